@@ -36,7 +36,7 @@ HashFileDB = TRef(
     "HashFileDB",
     fields=dict(fs=FileSystem, path=TStr, hash_name=TStr, read_only=TBool, objs=TSet(HashInfo), cache_types=TList(TStr),
                 # ghost: number of removals of things under the store root that are not objects (legacy unpacked dirs)
-                nonobj_removals=TInt, state=TRef.registry.get('StateBase') or TRef('StateBase', fields={}, qualname='dvc_data.hashfile.state:StateBase')),
+                nonobj_removals=TInt, verify=TBool, state=TRef.registry.get('StateBase') or TRef('StateBase', fields={}, qualname='dvc_data.hashfile.state:StateBase')),
     qualname="dvc_data.hashfile.db:HashFileDB",
 )
 LocalHashFileDB = TRef("LocalHashFileDB", fields={}, qualname="dvc_data.hashfile.db.local:LocalHashFileDB", bases=("HashFileDB",))
@@ -89,3 +89,16 @@ def O_injective() -> SV:
     p, a, b = z3.String("p!O"), z3.String("a!O"), z3.String("b!O")
     f = ufn("O_path", z3.StringSort(), z3.StringSort(), z3.StringSort())
     return SV(z3.ForAll([p, a, b], z3.Implies(f(p, a) == f(p, b), a == b), patterns=[z3.MultiPattern(f(p, a), f(p, b))]), TBool)
+
+
+def O_inv(root: SV, p: SV) -> SV:
+    """the id whose object path is p in the store rooted at `root` (left inverse of O; exists because O is injective)"""
+    f = ufn("O_inv", z3.StringSort(), z3.StringSort(), z3.StringSort())
+    return SV(f(root.t, p.t), TStr)
+
+
+def O_inv_axiom() -> SV:
+    r, a = z3.String("r!Oi"), z3.String("a!Oi")
+    fo = ufn("O_path", z3.StringSort(), z3.StringSort(), z3.StringSort())
+    fi = ufn("O_inv", z3.StringSort(), z3.StringSort(), z3.StringSort())
+    return SV(z3.ForAll([r, a], fi(r, fo(r, a)) == a, patterns=[fo(r, a)]), TBool)
